@@ -246,13 +246,16 @@ harness('census', 'engines/fault/census.cpp', 'gcc-asan', libs='-lrapidcheck -lc
 reg(Prop('C20', 'exploration', [
     Sub('rand', 'census', shards=(12, 16), cases=(250, 3000), maxsize=(100, 100), env={'VERIF_SUB': 'rand'}, timeout=(900, 3600)),
     Sub('cycles', 'census', shards=(4, 8), cases=(1, 1), env={'VERIF_SUB': 'cycles'}, timeout=(900, 3600)),
+    Sub('fdledger_sm', 'netx', shards=(8, 8), cases=(600, 6000), maxsize=(60, 100), env={'VERIF_SUB': 'rand', 'VERIF_NETX_GEN': 'C10', 'VERIF_LEDGER_ONLY': 1}, timeout=(900, 3600)),
+    Sub('fdledger_io', 'netx', shards=(4, 8), cases=(40, 400), maxsize=(60, 100), env={'VERIF_SUB': 'rand', 'VERIF_NETX_GEN': 'C09', 'VERIF_LEDGER_ONLY': 1}, timeout=(900, 3600)),
 ], rule='lifecycle histories: sequences of up to ~14 self-contained episodes over 17 object kinds (trees, list+hash table, INI incl. missing file, hashes, errors, directory iterator incl. missing path, TCP pairs incl. refused connect / timed-out accept / timed-out receive / I/O after close, '
         'UDP incl. receive_from and timed-out receive, socket addresses incl. rejected strings, semaphores with 1-3 handles and owner/non-owner free orders, shm with second handles of equal/smaller/larger size argument and read-only mode, shm buffers incl. failing open on a too-small segment, '
         'joinable/detached threads with TLS keys and values, foreign threads using p_uthread_current, lock objects, library loader incl. missing path and non-library file, libsys shutdown+init), each freeing everything it obtained. '
         'cycles sub-run: 120 (thorough 600) identical create/free cycles per kind x 6 variants. Oracle: after every episode library allocations (tracking allocator), descriptor count and bytes of /dev/shm-backed mappings equal the values before the history; at the end none of the history\'s IPC names exists (names computed independently with SHA-1). '
+        'Descriptor ledger sub-runs (socket state-machine sequences and faulted transfers of the C10 / C09 generators, libc entry points of the library wrapped): every descriptor the library obtains from socket / accept / shm_open is closed by the library exactly once - a close of a descriptor it does not hold, or a descriptor still open after every object was freed, is a violation. '
         'Non-trivial = history with >= 1 failing call, >= 1 IPC object opened through handles with different size arguments, and >= 3 module kinds; distinct = distinct history text.',
     assumptions=['glibc-internal allocations and the loader\'s own mappings are invisible to the census; TLS slot consumption is not part of it (documented: the native key is kept)',
-                 'detached threads are awaited (bounded) before the census', 'double close of a descriptor is observed only through the descriptor count (a close of a foreign descriptor would show as a deficit)'],
+                 'detached threads are awaited (bounded) before the census', 'the exactly-once ledger covers socket and shm descriptors (socket / accept / shm_open -> close); descriptors of other modules (directory streams, INI files via stdio) are covered by the descriptor count only'],
     corpus_harness='census', design_ref='4/C20'))
 ENGINES[-2]['serves_properties'].append('C20') if ENGINES[-2]['name'] == 'fault' else None
 for _e in ENGINES:
@@ -342,7 +345,7 @@ reg(Prop('C19', 'fault_enumeration', [
         'Non-trivial = a signal was delivered while the thread was inside the blocking system call, or a planned EINTR was consumed; distinct = distinct case text.',
     assumptions=_net_assume + ['wrapper EINTRs follow the POSIX convention of each call (clock_nanosleep reports through its return value, errno untouched)', 'signal storms stop after 4000 signals so that they cannot starve the target thread'],
     corpus_harness='netx', design_ref='4/C19, 3.3'))
-ENGINES.append(dict(name='netx', path='engines/netx', serves_properties=['C09', 'C10', 'C19'], kind_free_text='socket harness with link-time fault wrappers (EINTR/EAGAIN/short transfers as generated plans), raw peer thread, signal storms'))
+ENGINES.append(dict(name='netx', path='engines/netx', serves_properties=['C09', 'C10', 'C19', 'C20'], kind_free_text='socket harness with link-time fault wrappers (EINTR/EAGAIN/short transfers as generated plans), raw peer thread, signal storms'))
 LEVEL_TEXT['C09'] = 'Generated transfers with generated fault plans checked against a byte-stream / datagram oracle; all single-fault plans on base transfers are enumerated.'
 LEVEL_TEXT['C10'] = 'Model-based command sequences on sockets with getter model, closed-state and timeout/non-blocking oracles, system-call counting through wrappers.'
 LEVEL_TEXT['C19'] = 'Every blocking call site is run under enumerated single-EINTR plans and under real signal storms; the outcome must equal the signal-free outcome.'
